@@ -216,6 +216,36 @@ def remapped():
     sx.reach("remapped")
 
 
+def short_then_full():
+    """another producer uses the consumer map's COB-ID for a shorter PDO (colliding COB-IDs, different lengths): after
+    such a short frame the next full-length frame is again read completely - the map's buffer follows the frame"""
+    rig = Rig()
+    cob = sx.fresh_int("cob", 0x181, 0x57F)
+    pm, cm = rig.producer.tpdo[1], rig.consumer.tpdo[1]
+    pvars = _configure(pm, "aligned", cob)
+    cvars = _configure(cm, "aligned", cob)
+    tag = "C15/short-then-full"
+
+    def full(rnd):
+        vals = []
+        for i, (code, ln) in enumerate(LAYOUTS["aligned"]):
+            v = _fresh_value(code, ln, "v%d_%d" % (rnd, i))
+            vals.append(v)
+            pvars[i].raw = v
+        pm.transmit()
+        try:
+            for i, v in enumerate(vals):
+                sx.prove(cvars[i].raw == v, "consumer reads the full frame (round %d)" % rnd, tag + "/value")
+        except Exception as e:
+            sx.observe("exc", C.exc_name(e))
+            sx.fail("reading a variable after a full-length frame raised %s" % C.exc_name(e), tag + "/raises")
+    full(0)
+    nshort = 1 + sx.choice(3, "nshort")
+    rig.nb.notify(cob, sx.new_bytearray(sx.items(sx.fresh_bytes("short", nshort))), sx.fresh_int("ts_s", 1, 1 << 40))
+    full(1)
+    sx.reach("short-then-full")
+
+
 def transmit_twice(tt):
     """transmit() sends exactly the map's COB-ID and current data, every time it is called - also twice in quick
     succession on a map with a configured inhibit time (event-driven transmission types)"""
@@ -400,6 +430,10 @@ def remote_request():
     pm.add_callback(lambda mp: pcalls.append(mp))
     cm.enabled = bool(sx.choice(2, "enabled"))
     cm.rtr_allowed = bool(sx.choice(2, "rtr"))
+    # whatever else is configured (transmission type incl. the RTR-only types 252/253, timers) has no say in this
+    cm.trans_type = sx.fresh_int("tt", 0, 255)
+    cm.inhibit_time = sx.fresh_int("inh", 0, 0xFFFF)
+    cm.event_timer = sx.fresh_int("evt", 0, 0xFFFF)
     n0 = len(rig.frames)
     cm.remote_request()
     new = rig.frames[n0:]
@@ -573,7 +607,8 @@ def sequence(k, s0=None, s1=None):
 
 def jobs(tier):
     out = [dict(func="named_lookup", params={}), dict(func="remote_request_after_save", params={}),
-           dict(func="two_readers", params={}, weight=50), dict(func="remapped", params={})]
+           dict(func="two_readers", params={}, weight=50), dict(func="remapped", params={}),
+           dict(func="short_then_full", params={})]
     for tt in (255, 254, 1):
         out.append(dict(func="transmit_twice", params=dict(tt=tt)))
     for code in (0x1B, 0x15, 0x11, 0x07, 0x18) if tier == "quick" else (0x1B, 0x15, 0x11, 0x07, 0x18, 0x08, 0x10, 0x16, 0x19):
@@ -621,7 +656,7 @@ META = dict(
                     "for PDO maps in this harness (frame format is C10's business)"],
     assumptions=["producer and consumer are configured with the same mapping by the harness"],
     stubs=["struct", "threading.Condition", "Network.send_message replaced by a loopback", "logging"],
-    required_reach=["remapped", "transmit-twice", "named", "from-od", "rtr-saved", "two-readers", "two-readers-parked", "roundtrip", "collide-hit", "collide-miss", "collide-both", "wait-hit", "wait-timeout", "threads-woken", "threads-timeout", "rtr-sent",
+    required_reach=["remapped", "short-then-full", "transmit-twice", "named", "from-od", "rtr-saved", "two-readers", "two-readers-parked", "roundtrip", "collide-hit", "collide-miss", "collide-both", "wait-hit", "wait-timeout", "threads-woken", "threads-timeout", "rtr-sent",
                     "rtr-suppressed", "rtr-od-sent", "rtr-od-suppressed", "collide-disabled", "seq-transmit", "seq-foreign", "seq-reconfigure", "sequence"],
     limits=dict(quick=dict(max_decisions=20000), thorough=dict(max_decisions=50000)),
     validate_every=dict(quick=5, thorough=31),
